@@ -11,7 +11,8 @@ The statements of each generator are looked up by shape (Python ast, fail-closed
         self.select(<KEY>=<v>, reset=<YIELD_RESET literal>)
         [label_data = self.sensor.get(<NAME_SENSOR>)]
         <name> = <data>.unique_values[<data>.indices[<v>]]
-        target = self.catalogue.targets[self.target_indices[0]]
+        target = self.catalogue.targets[self.target_indices[0]]      ("lowest")
+              or self.catalogue.targets[self.sensor[<TARGET_SENSOR>][0]] ("first": first dump of the selection)
         yield <v>, <name>, target
         self._set_keep(old_timekeep.copy())
         self._selection.pop(<POP_KEY>, None)
@@ -24,6 +25,8 @@ Emitted into coq/Gen/Generated.v, for X in {scans, compscans}:
   it_X_pop          : string   key popped from _selection after the yield
   it_X_final_reset  : string   reset of the final re-select
   it_X_name_sensor  : string   sensor whose unique_values[indices[v]] is yielded
+  it_X_target_pick  : string   "lowest" / "first": how the yielded target is picked
+  it_X_target_src   : string   the attribute ("target_indices") resp. the per-dump sensor it is picked from
 The model (coq/Model/Scans.v) USES these constants; the theorems of Props/C03.v are re-checked against them.
 
 Second item: the run-on numbering of scans / compound scans in ConcatenatedDataSet.__init__ (katdal/concatdata.py).
@@ -159,13 +162,26 @@ def _generator(cls, name):
         raise TranslateError('%s: <name> = <data>.unique_values[<data>.indices[<v>]] not found' % what)
     name_var = n.targets[0].id
     t = rest[1]
+    # target = self.catalogue.targets[<pick>] with <pick> one of
+    #   self.target_indices[0]                         "lowest" (the attribute is sorted(set(...)), see item_index_attrs)
+    #   self.sensor['Observation/target_index'][0]     "first"  (per-dump sensor of the current selection, time order)
     ok = (isinstance(t, ast.Assign) and len(t.targets) == 1 and isinstance(t.targets[0], ast.Name)
           and isinstance(t.value, ast.Subscript) and isinstance(t.value.value, ast.Attribute)
           and t.value.value.attr == 'targets' and _self_attr(t.value.value.value, 'catalogue')
-          and isinstance(t.value.slice, ast.Subscript) and _self_attr(t.value.slice.value, 'target_indices')
-          and isinstance(t.value.slice.slice, ast.Constant) and t.value.slice.slice.value == 0)
-    if not ok:
-        raise TranslateError('%s: target = self.catalogue.targets[self.target_indices[0]] not found' % what)
+          and isinstance(t.value.slice, ast.Subscript)
+          and isinstance(t.value.slice.slice, ast.Constant) and type(t.value.slice.slice.value) is int
+          and t.value.slice.slice.value == 0)
+    pick = src = None
+    if ok:
+        base = t.value.slice.value
+        if _self_attr(base, 'target_indices'):
+            pick, src = 'lowest', 'target_indices'
+        elif (isinstance(base, ast.Subscript) and _self_attr(base.value, 'sensor')
+              and isinstance(base.slice, ast.Constant) and isinstance(base.slice.value, str)):
+            pick, src = 'first', base.slice.value
+    if pick is None:
+        raise TranslateError("%s: target = self.catalogue.targets[self.target_indices[0]] (or "
+                             "self.sensor['Observation/target_index'][0]) not found" % what)
     y = rest[2]
     if not (isinstance(y, ast.Expr) and isinstance(y.value, ast.Yield) and isinstance(y.value.value, ast.Tuple)
             and [getattr(e, 'id', None) for e in y.value.value.elts] == [v, name_var, t.targets[0].id]):
@@ -187,7 +203,7 @@ def _generator(cls, name):
             and final.value.keywords[0].value.id == 'preselection'):
         raise TranslateError('%s: final self.select(**preselection) not found' % what)
     return dict(field=field, key=key, yield_reset=yield_reset, pop=pop_key, final_reset=final_reset,
-                name_sensor=name_sensor)
+                name_sensor=name_sensor, target_pick=pick, target_src=src)
 
 
 def item_iterators(repo, out):
@@ -195,7 +211,7 @@ def item_iterators(repo, out):
     cls = _class(tree, 'DataSet', REL)
     for name in ('scans', 'compscans'):
         g = _generator(cls, name)
-        for k in ('field', 'key', 'yield_reset', 'pop', 'final_reset', 'name_sensor'):
+        for k in ('field', 'key', 'yield_reset', 'pop', 'final_reset', 'name_sensor', 'target_pick', 'target_src'):
             out.append('Definition it_%s_%s : string := %s.' % (name, k, coq_string(g[k])))
 
 
